@@ -382,6 +382,34 @@ func runCuts(cs *Case) (n int64, fail *failure) {
 			return n, &failure{class: cl, msg: msg}
 		}
 	}
+	// texts that themselves stop inside a colour sequence (a log line cut upstream): what such a sequence does to a
+	// terminal is not the writer's business, but the writer must not crash on it and must write a prefix of the text,
+	// nothing else, within the width
+	for i, u := range cs.Ups {
+		if i >= 24 {
+			break
+		}
+		t := u.T + []string{"\x1b[3", "\x1b[", "\x1b", "\x1b[1;3"}[i%4]
+		buf.Reset()
+		panicked, val, stack := run.Guard(func() { multiterm.WriteLineNoWrap(&buf, t) })
+		if panicked {
+			return n, &failure{class: "panic", msg: fmt.Sprintf("WriteLineNoWrap(%s) width %d panicked: %v\n%s", run.Q(t), cs.W, val, stack)}
+		}
+		n++
+		out := buf.String()
+		if !cs.Trim {
+			if out != t {
+				return n, &failure{class: "notrim-altered", msg: fmt.Sprintf("trimming is off but the text %s was written as %s", run.Q(t), run.Q(out))}
+			}
+			continue
+		}
+		if !strings.HasPrefix(t, out) {
+			return n, &failure{class: "cut-not-prefix", msg: fmt.Sprintf("width %d: written %s is not a prefix of the text %s (which ends inside a colour sequence)", cs.W, run.Q(out), run.Q(t))}
+		}
+		if vis, _ := visible(out); len(vis) > cs.W {
+			return n, &failure{class: "cut-too-wide", msg: fmt.Sprintf("width %d: written %s has %d visible characters (text %s)", cs.W, run.Q(out), len(vis), run.Q(t))}
+		}
+	}
 	return n, nil
 }
 
